@@ -19,7 +19,10 @@ import (
 // ---------------------------------------------------------------- one evaluation
 
 type harness struct {
-	fc *fence
+	fc      *fence
+	memos   []*memo // evaluations of the running case that are repeated at its end (cold vs. warm)
+	ordinal int     // evaluations of the running case so far
+	ptrOnly int     // accepted pointer-only results of the running case so far
 }
 
 var (
@@ -100,10 +103,24 @@ type evalReq struct {
 	doc     func() string
 	call    func(target any) error
 	classes string // what the generator supplied, for signatures
+	// history independence (isolation_test.go)
+	scribbleInput func() // overwrites the input containers the last call handed to go-zero by reference (nil: none)
+	passesRef     bool   // scribbleInput applies
+	extraTargets  int    // additional repeats of an accepted (type, input) into fresh targets
+	wantDump      bool   // the caller compares results: evalOne returns the dump of an accepted target
+	history       string // what ran before, for witnesses
+}
+
+// evalRes is what evalOne saw.
+type evalRes struct {
+	verdict string // acc | rej | panic
+	dump    string // accepted target, field by field (only if wantDump)
 }
 
 // evalOne runs one (type, input) through go-zero and through the reference, and compares.
-func (h *harness) evalOne(c *kit.Case, q *evalReq) {
+func (h *harness) evalOne(c *kit.Case, q *evalReq) *evalRes {
+	res := &evalRes{verdict: "rej"}
+	h.ordinal++
 	ref := reference(q.sd, q.ss)
 	target := reflect.New(q.sd.goType())
 	var docText string
@@ -125,6 +142,9 @@ func (h *harness) evalOne(c *kit.Case, q *evalReq) {
 		if len(ref.unknown) > 0 {
 			w["reference_does_not_demand_acceptance_because"] = ref.unknown
 		}
+		if q.history != "" {
+			w["history"] = q.history
+		}
 		for k, v := range extra {
 			w[k] = v
 		}
@@ -136,9 +156,11 @@ func (h *harness) evalOne(c *kit.Case, q *evalReq) {
 	switch {
 	case pan != nil:
 		kit.Obs("panics", 1)
+		res.verdict = "panic"
 		c.Viol(pan.key(), "the unmarshaller panicked: "+pan.Msg, witness(map[string]any{"panic": pan.Msg, "stack": pan.Stack}))
 	case err == nil:
 		kit.Obs("accepted", 1)
+		res.verdict = "acc"
 		for _, m := range ref.must {
 			c.Viol("C08/"+m.Kind+"/"+m.Class, fmt.Sprintf("accepted although %s: %s", m.Path, m.What),
 				witness(map[string]any{"field": m.Path, "clause": m.Kind}))
@@ -153,8 +175,25 @@ func (h *harness) evalOne(c *kit.Case, q *evalReq) {
 		} else if len(ref.must) == 0 {
 			kit.Obs("accepted_reference_silent", 1)
 		}
+		if docText == "" {
+			docText = q.doc()
+		}
+		if q.wantDump {
+			res.dump = strings.Join(dumpTop(target.Elem()), " | ")
+		}
+		if (h.ordinal+c.Index)%memoEvery == 0 {
+			h.remember(q, docText, true, target)
+		}
+		// the caller overwrites its result; the same input must give the same result again
+		h.afterAccept(c, q, target, docText)
 	default:
 		kit.Obs("rejected", 1)
+		if (h.ordinal+c.Index)%memoEvery == 0 {
+			if docText == "" {
+				docText = q.doc()
+			}
+			h.remember(q, docText, false, target)
+		}
 		if ref.acceptDemanded() {
 			c.Viol("C08/valid-input-rejected/"+q.ctxName+"/"+errClass(err)+"/"+suspectShape(q.sd, err), "input meets every declared constraint with correctly typed values, yet: "+err.Error(), witness(nil))
 		} else if len(ref.must) > 0 {
@@ -177,16 +216,48 @@ func (h *harness) evalOne(c *kit.Case, q *evalReq) {
 		verdict = "acc"
 	}
 	c.Sig(ref.nontrivial(), q.entry, q.sd.shape(), q.classes, verdict)
+	return res
 }
 
 func oneSource(e *entry, tree map[string]any) sources {
 	return sources{e.Ctx.TagKey: {ctx: e.Ctx, tree: tree}}
 }
 
+// entryReq builds the evaluation of one input tree through one entry point. Entries that take the
+// tree itself get a private deep copy per call, which is overwritten after an accepted call.
+func entryReq(sd *structD, e *entry, tree map[string]any, classes string) *evalReq {
+	q := &evalReq{sd: sd, ss: oneSource(e, tree), entry: e.Name, ctxName: e.Ctx.Name, classes: classes,
+		doc: func() string { return e.Doc(tree) }}
+	if !e.ByRef {
+		q.call = func(t any) error { return e.Call(tree, t) }
+		return q
+	}
+	var passed map[string]any
+	q.call = func(t any) error {
+		passed = deepCopyTree(tree).(map[string]any)
+		return e.Call(passed, t)
+	}
+	q.passesRef = true
+	q.scribbleInput = func() { scribbleTree(passed) }
+	return q
+}
+
 func (h *harness) evalEntry(c *kit.Case, sd *structD, e *entry, tree map[string]any, classes string) {
-	h.evalOne(c, &evalReq{sd: sd, ss: oneSource(e, tree), entry: e.Name, ctxName: e.Ctx.Name, classes: classes,
-		doc:  func() string { return e.Doc(tree) },
-		call: func(t any) error { return e.Call(tree, t) }})
+	h.evalOne(c, entryReq(sd, e, tree, classes))
+}
+
+// evalEntryN: an accepted (type, input) is unmarshalled into 1+extra further targets.
+func (h *harness) evalEntryN(c *kit.Case, sd *structD, e *entry, tree map[string]any, classes string, extra int) {
+	q := entryReq(sd, e, tree, classes)
+	q.extraTargets = extra
+	h.evalOne(c, q)
+}
+
+// evalEntryX: the caller compares the outcome with that of another evaluation.
+func (h *harness) evalEntryX(c *kit.Case, sd *structD, e *entry, tree map[string]any, classes, history string) *evalRes {
+	q := entryReq(sd, e, tree, classes)
+	q.wantDump, q.history = true, history
+	return h.evalOne(c, q)
 }
 
 // ---------------------------------------------------------------- family: bounded-exhaustive single field (+ dependency field)
@@ -201,6 +272,11 @@ type exhCombo struct {
 }
 
 var exhEntries = []string{"json", "keynative", "formlike", "headerlike"}
+
+// dependency combinations: additionally the lower-casing configuration, on a subset of the classes
+var exhEntriesDep = []string{"json", "keynative", "formlike", "headerlike", "lower"}
+
+var exhLowerClasses = map[vclass]bool{vcAbsent: true, vcValid: true, vcBelowLo: true, vcAboveHi: true, vcFar: true, vcOptOut: true}
 
 func exhCombos(k reflect.Kind) []exhCombo {
 	var out []exhCombo
@@ -267,10 +343,10 @@ func exhRange(k reflect.Kind, v int) *rangeD {
 
 func (cb exhCombo) build(e *entry, ptr int, shuffle uint64) *structD {
 	k := cb.kind
-	selfKey, depKey := "a", "d"
-	if e.Ctx.TagKey == "header" {
-		selfKey, depKey = "x-self", "x-dep"
-	}
+	// the same keys (and the same option order) under every entry: the tag text after the tag key
+	// is then identical for all unmarshaler configurations of a combination, and go-zero shares
+	// what it caches by tag text between them
+	selfKey, depKey := "x-Self", "x-Dep"
 	f := &fieldD{GoName: "A", Src: e.Ctx.TagKey, Key: selfKey, Kind: k, Ptr: ptr, Opt: cb.opt, FromStr: cb.fromStr, Shuffle: shuffle}
 	if cb.opt == optDep || cb.opt == optNotDep {
 		f.Dep = depKey
@@ -317,26 +393,40 @@ func (h *harness) runExhaustive(t *testing.T) {
 		combos := exhCombos(k)
 		fam := "exh-" + k.String()
 		n := (len(combos) + chunk - 1) / chunk
-		kit.Run(t, "C08", fam, n, func(c *kit.Case) {
+		h.run(t, fam, n, func(c *kit.Case) {
 			lo, hi := c.Index*chunk, (c.Index+1)*chunk
 			if hi > len(combos) {
 				hi = len(combos)
 			}
 			for ci := lo; ci < hi; ci++ {
 				cb := combos[ci]
-				for ei, en := range exhEntries {
+				withDep := cb.opt == optDep || cb.opt == optNotDep
+				shuffle := c.R.Uint64() | 1
+				// the configurations take turns in being the first to see a combination's tag text;
+				// dependency combinations also run under a second canonicalising configuration
+				// (lower-casing, as core/conf uses it) on the classes that decide the dependency rule
+				names := exhEntries
+				if withDep {
+					names = exhEntriesDep
+				}
+				for t := 0; t < len(names); t++ {
+					ei := (t + ci) % len(names)
+					en := names[ei]
 					e := entries[en]
 					ptr := 0
 					if (ci+ei)%3 == 0 {
 						ptr = 1
 					}
-					sd := cb.build(e, ptr, c.R.Uint64()|1)
+					sd := cb.build(e, ptr, shuffle)
 					f := sd.Fields[0]
 					depStates := []bool{false}
-					if cb.opt == optDep || cb.opt == optNotDep {
+					if withDep {
 						depStates = []bool{false, true}
 					}
 					for cls := vcAbsent; cls < vcNumClasses; cls++ {
+						if en == "lower" && !exhLowerClasses[cls] {
+							continue
+						}
 						var leaf any
 						ok := true
 						if cls != vcAbsent {
@@ -360,7 +450,7 @@ func (h *harness) runExhaustive(t *testing.T) {
 			}
 			if c.Index == 0 {
 				c.Sample("exhaustive", 1, map[string]any{"family": fam, "option_combinations": len(combos), "entries": exhEntries,
-					"input_classes": vclassNames[:], "note": "every applicable (combination, entry, input class, dependency present/absent) is evaluated"})
+					"input_classes": vclassNames[:], "note": "every applicable (combination, entry, input class, dependency present/absent) is evaluated; all entries of a combination share one tag text and take turns in seeing it first; dependency combinations also run under the lower-casing configuration on the classes absent/valid/below-lo/above-hi/far/opt-out"})
 			}
 		})
 	}
@@ -371,7 +461,7 @@ func (h *harness) runExhaustive(t *testing.T) {
 var randomEntries = []string{"json", "json", "json", "jsonreader", "yaml", "toml", "key", "keynative", "jsonmap", "custom", "strvals", "formlike", "pathlike", "headerlike", "lower"}
 
 func (h *harness) runRandom(t *testing.T, n int) {
-	kit.Run(t, "C08", "random", n, func(c *kit.Case) {
+	h.run(t, "random", n, func(c *kit.Case) {
 		r := c.R
 		e := entries[kit.Choose(r, randomEntries)]
 		g := &typeGen{r: r, e: e, tagKey: e.Ctx.TagKey, maxDeep: 2}
@@ -401,7 +491,7 @@ func (h *harness) runRandom(t *testing.T, n int) {
 // ---------------------------------------------------------------- family: httpx.Parse
 
 func (h *harness) runHTTP(t *testing.T, n int) {
-	kit.Run(t, "C08", "http", n, func(c *kit.Case) {
+	h.run(t, "http", n, func(c *kit.Case) {
 		r := c.R
 		g := &typeGen{r: r, http: true, maxDeep: 1}
 		sd := &structD{}
@@ -544,7 +634,7 @@ func (h *harness) runShapes(t *testing.T) {
 		}},
 	}
 	ents := []string{"json", "yaml", "toml", "jsonmap", "lower"}
-	kit.Run(t, "C08", "shapes", len(shapes), func(c *kit.Case) {
+	h.run(t, "shapes", len(shapes), func(c *kit.Case) {
 		sh := shapes[c.Index]
 		kinds := allPrims
 		if probe := sh.mk(reflect.Int); probe.Sub != nil || (probe.Elem != nil && probe.Elem.Sub != nil) {
@@ -687,7 +777,7 @@ func handWritten() []*structD {
 func (h *harness) runHandWritten(t *testing.T, n int) {
 	types := handWritten()
 	ents := []string{"json", "yaml", "toml", "jsonreader", "jsonmap"}
-	kit.Run(t, "C08", "handwritten", n, func(c *kit.Case) {
+	h.run(t, "handwritten", n, func(c *kit.Case) {
 		r := c.R
 		sd := types[c.Index%len(types)]
 		e := entries[kit.Choose(r, ents)]
@@ -822,6 +912,8 @@ func TestVerifC08(t *testing.T) {
 	defer h.fc.close()
 	h.runExhaustive(t)
 	h.runShapes(t)
+	h.runIsolation(t)
+	h.runXum(t, kit.N(400, 6000))
 	h.runHandWritten(t, kit.N(900, 10000))
 	h.runRandom(t, kit.N(10000, 250000))
 	h.runHTTP(t, kit.N(4000, 60000))
